@@ -1,1 +1,3 @@
 pub mod core;
+pub mod c05;
+pub mod c12;
